@@ -22,7 +22,7 @@ pub struct BankToCustomerStatement {
 pub struct Statement {
     #[serde(rename = "Bal")]
     pub balance: Vec<Balance>,
-    #[serde(rename = "Ntry")]
+    #[serde(rename = "Ntry", default)]
     pub entries: Vec<Entry>,
 }
 
